@@ -67,14 +67,10 @@ func (s *sess) expectClosed() (cli, srv bool) {
 	case "read-err", "close-err+Close", "close-err+peer-close":
 		return true, true
 	case "write-err", "short-write":
-		// a failed write on the CLIENT's connection must bring that connection down (and with it, in
-		// pipe-both, the server connection at the other end of the pipe)
-		if s.sp.Setup == "pipe-client" || s.sp.Setup == "pipe-both" {
-			return true, true
-		}
+		// a failed write must bring the connection down, on the client side as on the server side (and with
+		// it, in pipe-both, the connection at the other end of the pipe)
+		return true, true
 	}
-	// write-err / short-write on the SERVER's connection (pipe-server): its writer goes on with the next
-	// frame after a failed write (the pinned behaviour); closure is observed and counted, not demanded.
 	return false, false
 }
 
